@@ -88,6 +88,14 @@ def gen(rng, tier):
             i = rng.randrange(len(b)); m = bytearray(b); m[i] ^= 1 << rng.randrange(8)
             out.append(Case("scte.decode " + hx(m), kind="fidelity-bitflip", decides=False, nontrivial=False,
                             theorem="Scte.parse_table vs scte35.NewSCTE35"))
+    # the two loops that do not terminate on the pinned /repo (F11): descriptor_loop_length 0xFFFF, and a MID whose inner
+    # lengths overshoot segmentation_upid_length; fidelity cases (outcome class belongs to C05)
+    loops = ["00fc301100000000000000fff00000ffff00000000",
+             "00fc302600000000000000fff000000015021343554549000000017fbf0d010905000000000000000000",
+             "00fc302600000000000000fff000000015021343554549000000017fbf0d0309ff000000000000000000"]
+    for h in loops:
+        out.append(Case("scte.decode x" + h, kind="fidelity-loop", decides=False, nontrivial=False,
+                        theorem="Scte.parse_desc_loop / parse_mid never Diverge (Proofs/ScteTotal.v)"))
     return out
 
 
